@@ -333,6 +333,9 @@ def known_finding(v, findings):
     m = re.search(r": \((\d+), (\d+)\) at distance \S+ < radius \S+ is missing from the result", v.get('desc', ''))
     if v.get('backend') == 'sqlite':
         return known_sqlite(v, findings)
+    if not m and ('fewer results' in v.get('desc', '') or 'truncated result is not' in v.get('desc', '')):
+        # under max_elmt the concrete oracle reports a count; the omitted edge is named by the claim
+        m = re.match(r"omitted_\((\d+), (\d+)\)_is_not_among_the_nearest", v.get('claim', ''))
     if not m or 'coords' not in v or not v.get('desc', '').startswith('InMemMap.edges_closeto'):
         return None
     a = m.group(1)
